@@ -86,7 +86,7 @@ func checkC11(e *Env) {
 
 // dupReturnsError: the edge on which two adjacent keys are equal leads to a
 // return of ErrDuplicatedKey.
-func dupReturnsError(e *Env, em *ssa.Function) {
+func dupReturnsError(e *Env, em *ssa.Function, equal gate.Gate) {
 	if em == nil {
 		return
 	}
@@ -95,10 +95,12 @@ func dupReturnsError(e *Env, em *ssa.Function) {
 		if !ok {
 			continue
 		}
-		for _, f := range gate.EdgeFacts(ifi.Cond, true) {
-			if f.Kind == gate.FBool && f.Call != nil && f.Val && strings.HasSuffix(load.FuncName(em), "EncodeMap") && calleeIs(f.Call, "bytes.Equal") {
-				tb := b.Succs[0]
-				if r, ok := tb.Instrs[len(tb.Instrs)-1].(*ssa.Return); ok && provOf(r.Results[0]) == "global:cbor.ErrDuplicatedKey" {
+		for side, succ := range b.Succs {
+			for _, f := range gate.EdgeFacts(ifi.Cond, side == 0) {
+				if equal.Edge == nil || !equal.Edge(f) {
+					continue
+				}
+				if r, ok := succ.Instrs[len(succ.Instrs)-1].(*ssa.Return); ok && provOf(r.Results[0]) == "global:cbor.ErrDuplicatedKey" {
 					e.R.OK("GATE", load.FuncName(em)+":dup-is-error", e.P.InstrPos(r), "equal adjacent keys return ErrDuplicatedKey")
 					return
 				}
@@ -118,9 +120,9 @@ func encodeMapObligations(e *Env) {
 	e.requireGates("GATE", em, o, noCfg,
 		gate.CallOK("M.header", "(*cbor.Encoder).encodeMapHeader", "param:e", "len(param:mes)"),
 		gate.CallInstr("M.copy", "builtin:copy", tEntries, "param:mes"),
-		gate.CallInstr("M.sort", "sort.Slice", tEntries, "closure:(*cbor.Encoder).EncodeMap$1"),
+		gate.CallInstr("M.sort", "sort.Slice || sort.SliceStable", tEntries, "closure:(*cbor.Encoder).EncodeMap$1"),
 	)
-	e.callOrder("ORDER", "copy-before-sort", em, gate.CallInstr("", "builtin:copy", tEntries, "param:mes"), gate.CallInstr("", "sort.Slice", tEntries, "*"), "the entries are copied before they are sorted")
+	e.callOrder("ORDER", "copy-before-sort", em, gate.CallInstr("", "builtin:copy", tEntries, "param:mes"), gate.CallInstr("", "sort.Slice || sort.SliceStable", tEntries, "*"), "the entries are copied before they are sorted")
 	cmp := e.fn("internal/cbor.(*Encoder).EncodeMap$1")
 	e.requireResult("RESULT", cmp, gate.Outcome{Kind: gate.AnyReturn}, 0,
 		"(call:bytes.Compare(call:(*cbor.MapEntryEncoder).KeyBytes(free:entries[param:i]),call:(*cbor.MapEntryEncoder).KeyBytes(free:entries[param:j])) < const:0)",
@@ -132,15 +134,15 @@ func encodeMapObligations(e *Env) {
 	forAllIterations(e, "FORALL", em, tEntries, noCfg,
 		either("M.nodup", "first entry, or key differs from the previous key",
 			gate.Cmp("", tLast, token.EQL, "const:nil"),
-			gate.CallBool("", "bytes.Equal", false, tLast, tKey)))
+			bytesDiffer("", "", tLast, tKey)))
 	forAllIterations(e, "FORALL", em, tEntries, noCfg, gate.CallOK("M.key", "io.Copy", "param:e.w", tEntries+"[rangeidx].keyBuf"))
 	forAllIterations(e, "FORALL", em, tEntries, noCfg, gate.CallOK("M.value", "io.Copy", "param:e.w", tEntries+"[rangeidx].valueBuf"))
 	e.callOrder("ORDER", "key-before-value", em, gate.CallInstr("", "io.Copy", "param:e.w", "*.keyBuf"), gate.CallInstr("", "io.Copy", "param:e.w", "*.valueBuf"), "each key is emitted before its value")
 	e.dominatedByGates("GATE", em, noCfg, "io.Copy", []string{"param:e.w", "*.keyBuf"},
 		either("M.nodup-before-emit", "first entry, or key differs from the previous key",
 			gate.Cmp("", tLast, token.EQL, "const:nil"),
-			gate.CallBool("", "bytes.Equal", false, tLast, tKey)))
+			bytesDiffer("", "", tLast, tKey)))
 	// the duplicate edge returns ErrDuplicatedKey
-	dupReturnsError(e, em)
+	dupReturnsError(e, em, bytesEqual("", "", tLast, tKey))
 
 }
